@@ -33,15 +33,33 @@ theorem nf_store (st : St) (cfg : Cfg) (f : Option EventId) (t : Tech) (a : Attr
   · exact nf_write _ _ _ _ h
   · exact nf_write _ _ _ _ h
 
+/-- the members of a converter chain only emit events -/
+theorem nf_runConvs (f : Option EventId) (n : String) (ms : List Conv) :
+    ∀ (i : Nat) (v : Val) (st : St), NF st → NF (runConvs f n i ms v st).1 := by
+  induction ms with
+  | nil => intro i v st h; exact h
+  | cons c cs ih =>
+    intro i v st h
+    unfold runConvs
+    dsimp only
+    split
+    · exact nf_emit _ _ _ h
+    · exact ih _ _ _ (nf_emit _ _ _ h)
+
 theorem nf_setField (cfg : Cfg) (f : Option EventId) (b : Bool) (a : Attr) (v : Val) (st : St) (h : NF st) :
     NF (setField cfg f b a v st) := by
   unfold setField
   split
   · exact nf_store _ _ _ _ _ _ h
-  · dsimp only
-    split
-    · exact nf_emit _ _ _ h
-    · exact nf_store _ _ _ _ _ _ (nf_emit _ _ _ h)
+  · split
+    · dsimp only
+      split
+      · exact nf_emit _ _ _ h
+      · exact nf_store _ _ _ _ _ _ (nf_emit _ _ _ h)
+    · dsimp only
+      split
+      · exact nf_runConvs _ _ _ _ _ _ h
+      · exact nf_store _ _ _ _ _ _ (nf_runConvs _ _ _ _ _ _ h)
 
 theorem nf_stepAttr (cfg : Cfg) (f : Option EventId) (belief : String → Bool) (env : List (String × Val))
     (st : St) (a : Attr) (h : NF st) : NF (stepAttr cfg f belief env st a) := by
